@@ -26,9 +26,14 @@ Pool == {
   C(3, <<"A">>, (a :> L(1, TRUE, <<"B">>)) @@ (abc :> L(2, FALSE, <<"B", "A">>))),
   C(4, <<"B">>, (ab :> L(0, TRUE, <<"A">>)) @@ (abc :> L(5, TRUE, <<>>))),
   C(0, <<>>, (a :> L(0, TRUE, <<"A">>)) @@ (ab :> L(0, TRUE, <<"B">>))),
-  C(1, <<"A", "B">>, (b :> L(5, FALSE, <<>>)))
+  C(1, <<"A", "B">>, (b :> L(5, FALSE, <<>>))),
+  \* names are compared as they are spelled: a hyphen is not an underscore (package name / module name), neither
+  \* in a configured name nor in a target
+  C(1, <<"A">>, (<<"a", "-", "b">> :> L(5, TRUE, <<"B">>)) @@ (<<"a", "_", "b">> :> L(0, TRUE, <<>>))),
+  C(4, <<"A">>, (<<"a", "-", "b">> :> L(1, FALSE, <<"B">>)))
 }
-TargetsDef == SeqsUpTo({"a", "b", ":"}, 3) \cup {ab, abc, ab \o <<":", ":", "b">>, abc \o <<":", ":", "a">>, <<"a", ":", ":", "c">>, <<"b", ":", ":", "c">>}
+TargetsDef == SeqsUpTo({"a", "b", ":"}, 3) \cup {ab, abc, ab \o <<":", ":", "b">>, abc \o <<":", ":", "a">>, <<"a", ":", ":", "c">>, <<"b", ":", ":", "c">>,
+               <<"a", "-", "b">>, <<"a", "_", "b">>, <<"a", "-", "b", ":", ":", "c">>, <<"a", "_", "b", ":", ":", "c">>}
 TargetSeq == SetToSeq(Targets)
 CfgJson(c) == LET ls == SetToSeq(DOMAIN c.loggers) IN
   [root |-> c.root,
